@@ -559,6 +559,15 @@ def probes(rng, tier):
         "    ok = ok and bool(np.all(q.coord_vectors[ax] == p.coord_vectors[ax][s]))\n"
         "observed = [v.tolist() for v in q.cell_boundary_vecs]\n"
         "expected = [[p.cell_boundary_vecs[a][s].tolist(), p.cell_boundary_vecs[a][s + 1].tolist()] for a, s in enumerate(sel)]\n")
+    hull = (
+        "ok = q.ndim == p.ndim\n"
+        "for ax in range(p.ndim):\n"
+        "    n = p.shape[ax]; i = norm[ax]; b = p.cell_boundary_vecs[ax]\n"
+        "    s = np.atleast_1d(np.arange(n)[i])\n"
+        "    u = np.atleast_1d(np.arange(n)[slice(i.start, i.stop)]) if isinstance(i, slice) else s\n"
+        "    ok = ok and bool(np.all(q.coord_vectors[ax] == p.coord_vectors[ax][s]))\n"
+        "    ok = ok and q.min_pt[ax] == b[u[0]] and q.max_pt[ax] == b[u[-1] + 1]\n"
+        "observed = (q.min_pt.tolist(), q.max_pt.tolist(), [v.tolist() for v in q.coord_vectors])\n")
     for _ in range(80 * N):
         p = rand_part(rng)
         nd = p.ndim
@@ -592,6 +601,10 @@ def probes(rng, tier):
                "expr = %r\nnorm = %r\nq = p[expr]\n" % (expr, norm) + getit)
         probe('getitem-step-slice-cells' if stepped else 'getitem-selected-cells',
               'p[ints/slices/ellipsis]: cells of the result are exactly the selected cells', src)
+        if stepped:
+            probe('getitem-step-slice-hull', 'p[a:b:k]: selected grid points, limits = hull of the cells a..b-1 (documented)',
+                  _PRE + "from builtins import slice, Ellipsis\n" + _mk_src(_axes_of(p)) +
+                  "expr = %r\nnorm = %r\nq = p[expr]\n" % (expr, norm) + hull)
     # index lists along the first axis
     for _ in range(20 * N):
         p = rand_part(rng)
@@ -601,6 +614,9 @@ def probes(rng, tier):
         src = (_PRE + _mk_src(_axes_of(p)) + "q = p[%r]\nnorm = [%r] + [slice(None)] * (p.ndim - 1)\n" % (l, l) + getit)
         probe('getitem-selected-cells' if contiguous else 'getitem-list-noncontiguous-cells',
               'p[list]: cells of the result are exactly the selected cells', src)
+        if not contiguous:
+            probe('getitem-list-hull', 'p[list]: selected grid points, limits = hull of the first and last selected cell',
+                  _PRE + _mk_src(_axes_of(p)) + "q = p[%r]\nnorm = [%r] + [slice(None)] * (p.ndim - 1)\n" % (l, l) + hull)
     # integers below -n must be rejected like any out-of-range index
     for n in ([2, 3, 5] if tier == 'quick' else [1, 2, 3, 4, 5, 8]):
         for i in (n, n + 1, -n - 1, -n - 2, -2 * n):
